@@ -1,8 +1,8 @@
 INIT GenInit
 NEXT GenNext
 CONSTANTS
-  KL = 600
-  KS = 14
+  KL = 500
+  KS = 12
   MaxLen = 4
 INVARIANTS Emit
 CHECK_DEADLOCK FALSE
